@@ -4,7 +4,7 @@ from hypothesis import strategies as st
 from engines.runtime_worker import run_scenario
 from engines.scenarios import (ALL, BASE_NAMES, EXC_NAMES, FALSY, RETURN_NAMES, accept_delay, bystander, chain_has_injected,
                                flatten_leaves, switchinterval)
-from vlib.core import Result, TestDef
+from vlib.core import HarnessError, Result, TestDef
 
 ID = "C01"
 LEVEL = "fault_enumeration"
@@ -95,8 +95,7 @@ def judge(sc, obs) -> Result:
     failing = [p for p in sc["payloads"] if p.get("role") == "failing"]
     desc = "; ".join(f"{p['flavour']} {p['end']} via {p.get('regmode')}" for p in failing) + f" [{sc['runner']}, {len(sc['payloads']) - len(failing)} others]"
     if obs.get("worker_error"):
-        res.fail("worker-error", f"{obs['worker_error']} ({desc})")
-        return res
+        raise HarnessError("scenario worker failed: " + str(f"{obs['worker_error']} ({desc})"))
     if obs.get("hang") or not obs.get("episodes"):
         reached = {**obs.get("injected", {}), **obs.get("returned", {})}
         res.expensive = True
@@ -112,8 +111,7 @@ def judge(sc, obs) -> Result:
     kbint = "kbint" in kinds or sc.get("sigint")
     for o in obs.get("ops", []):
         if o.get("error"):
-            res.fail("harness-driver-error", f"{o}")
-            return res
+            raise HarnessError(f"driver thread failed: {o}")
     if out.get("late_sigint") and "exc" not in out and out["how"] == "raised":
         return res  # the interrupt hit the harness while it described the exception: inconclusive, not a verdict
     if out["how"] == "returned":
